@@ -110,7 +110,9 @@ impl Swarm {
                 s.defaults = 0;
             }
             Focus::Determinism => {
-                s.relation = Some("H4");
+                // H4: another process (hash key); H5: the same process after it has
+                // converted the same history many times (state that outlives a TypeSpace)
+                s.relation = if rng.chance(1, 8) { Some("H5") } else { Some("H4") };
                 s.readd = false;
             }
             Focus::Values => {
@@ -898,6 +900,37 @@ fn gen_component(rng: &mut Rng, sw: &Swarm, index: usize) -> Component {
         };
         let d = gen_definition(rng, &mut cx);
         defs.insert(name.clone(), d);
+    }
+    // an outer object schema that constrains a oneOf of references, one of which
+    // cannot be an object: that alternative is unsatisfiable and typify drops it
+    // (what is left is an enum over the struct alternatives)
+    if sw.defaults == 0 && sw.cycles == 0 && rng.chance(1, 6) {
+        let structs: Vec<String> = defs
+            .iter()
+            .filter(|(_, d)| d.get("type") == Some(&json!("object")) && d.get("properties").is_some() && d.get("additionalProperties").is_none())
+            .map(|(n, _)| n.clone())
+            .collect();
+        let scalars: Vec<String> = defs
+            .iter()
+            .filter(|(_, d)| matches!(d.get("type").and_then(|t| t.as_str()), Some("string") | Some("integer") | Some("boolean")) && d.get("enum").is_none())
+            .map(|(n, _)| n.clone())
+            .collect();
+        if structs.len() >= 2 && !scalars.is_empty() {
+            let name = match names.first().map(|n| n.as_str()) {
+                Some(n) if n.contains('_') => format!("{}_pick", prefix.to_lowercase()),
+                Some(n) if n.contains('-') => format!("{}-pick", prefix.to_lowercase()),
+                _ => format!("{prefix}Pick"),
+            };
+            if !defs.contains_key(&name) {
+                let a = structs[0].clone();
+                let b = structs[1].clone();
+                let c = rng.pick(&scalars).clone();
+                defs.insert(
+                    name,
+                    json!({"type": "object", "oneOf": [r(&a), r(&b), r(&c)]}),
+                );
+            }
+        }
     }
     // a bare-reference alternative of an untagged enum stays only when it names a
     // struct: next to `string` and `integer` that keeps the alternatives mutually
@@ -1757,7 +1790,7 @@ pub fn generate(seed: u64, focus: Focus, faults: bool) -> RunDesc {
     // ----- relation -----
     let variant = sw.relation.map(|rel| Variant {
         relation: rel.to_string(),
-        hash_key: var_rng.next_u64(),
+        hash_key: if rel == "H5" { hash_key } else { var_rng.next_u64() },
         decoy: if var_rng.chance(1, 3) { var_rng.range(1, 4) as u32 } else { 0 },
         ops: make_variant(&mut var_rng, rel, &ops),
     });
